@@ -109,44 +109,75 @@ Qed.
 
 (* after a settle in which the actor ran or its timer fired, every lease that
    is still outstanding has its deadline in the future *)
-Lemma drain_future fuel max now : forall s,
+Lemma pull_future max now s :
   sub_inv s -> 1 <= s_ackdl s -> (forall a l, live s a = Some l -> now < l_dl l) ->
-  forall a l, live (fst (drain fuel max now s)) a = Some l -> now < l_dl l.
+  forall a l, live (fst (sub_pull max now s)) a = Some l -> now < l_dl l.
 Proof.
-  induction fuel as [|f IH]; intros s I Hk H a l; simpl; [apply H|].
-  destruct (s_backlog s) as [|m b] eqn:Eb; [apply H|].
-  pose proof (sub_pull_inv max now s I) as I1.
-  assert (H1 : forall a l, live (fst (sub_pull max now s)) a = Some l -> now < l_dl l).
-  { intros a0 l0 Hl0. destruct (s_deleted s) eqn:Hd.
-    { unfold sub_pull in Hl0. rewrite Hd in Hl0. simpl in Hl0. eauto. }
-    pose proof (sub_pull_spec max now s I Hd) as P. destruct (sub_pull max now s) as [s1 ls].
-    destruct P as (_ & _ & _ & _ & _ & P6 & P7). simpl in *. unfold live in Hl0. rewrite P7 in Hl0.
-    apply alookup_in in Hl0. apply in_app_iff in Hl0 as [Hl0|Hl0].
-    - apply (H a0). unfold live. apply in_alookup; [apply I|assumption].
-    - apply in_map_iff in Hl0 as [x [Ex Hx]]. injection Ex as _ ->. rewrite (P6 _ Hx).
-      apply new_deadline_future. assumption. }
-  assert (K1 : 1 <= s_ackdl (fst (sub_pull max now s))).
-  { destruct (sstep_fields s (OPull max now)) as (_ & _ & _ & E & _). simpl in E. rewrite E. assumption. }
-  destruct (sub_pull max now s) as [s1 ls]. simpl in *.
-  specialize (IH s1 I1 K1 H1). destruct (drain f max now s1) as [s2 r]. simpl in *. apply IH.
+  intros I Hk H a0 l0 Hl0. destruct (s_deleted s) eqn:Hd.
+  { unfold sub_pull in Hl0. rewrite Hd in Hl0. simpl in Hl0. eauto. }
+  pose proof (sub_pull_spec max now s I Hd) as P. destruct (sub_pull max now s) as [s1 ls].
+  destruct P as (_ & _ & _ & _ & _ & P6 & P7). simpl in *. unfold live in Hl0. rewrite P7 in Hl0.
+  apply alookup_in in Hl0. apply in_app_iff in Hl0 as [Hl0|Hl0].
+  - apply (H a0). unfold live. apply in_alookup; [apply I|assumption].
+  - apply in_map_iff in Hl0 as [x [Ex Hx]]. injection Ex as _ ->. rewrite (P6 _ Hx).
+    apply new_deadline_future. assumption.
 Qed.
 
-Theorem settle_sub_no_overdue now touched sts s :
-  sub_inv s -> 1 <= s_ackdl s -> touched || timer_fired now s = true ->
-  forall a l, live (fst (settle_sub now touched sts s)) a = Some l -> now < l_dl l.
+Lemma pull_ackdl max now s : s_ackdl (fst (sub_pull max now s)) = s_ackdl s.
+Proof. destruct (sstep_fields s (OPull max now)) as (_ & _ & _ & E & _). exact E. Qed.
+
+Lemma serve_future fuel now : forall s c,
+  sub_inv s -> 1 <= s_ackdl s -> (forall a l, live s a = Some l -> now < l_dl l) ->
+  forall a l, live (fst (serve fuel now s c)) a = Some l -> now < l_dl l.
 Proof.
-  intros I Hk Ht. unfold settle_sub. rewrite Ht.
+  induction fuel as [|f IH]; intros s c I Hk H a l; simpl; [apply H|].
+  destruct (s_backlog s) as [|m b] eqn:Eb; [apply H|].
+  destruct (first_waiter (s_uid s) (c_waiters c)) as [[k rest]|]; [|apply H].
+  destruct k as [sid|id max limit].
+  - destruct (find_stream sid (c_streams c)) as [st|]; [|apply IH; assumption].
+    apply IH.
+    + apply sub_pull_inv; assumption.
+    + rewrite pull_ackdl. assumption.
+    + apply pull_future; assumption.
+  - apply IH.
+    + apply sub_pull_inv; assumption.
+    + rewrite pull_ackdl. assumption.
+    + apply pull_future; assumption.
+Qed.
+
+Theorem settle_sub_no_overdue now touched c s :
+  sub_inv s -> 1 <= s_ackdl s -> touched || timer_fired now s = true ->
+  forall a l, live (fst (settle_sub now touched c s)) a = Some l -> now < l_dl l.
+Proof.
+  intros I Hk Ht. unfold settle_sub, actor_runs. rewrite Ht. simpl.
   pose proof (sub_expire_inv now s I) as I1.
   assert (H1 : forall a l, live (sub_expire now s) a = Some l -> now < l_dl l).
   { intros a l Hl. destruct (sub_expire_spec now s I) as (_ & _ & H3 & _). apply (H3 a l Hl). }
   assert (K1 : 1 <= s_ackdl (sub_expire now s)).
   { destruct (sstep_fields s (OExpire now)) as (_ & _ & _ & E & _). simpl in E. rewrite E. assumption. }
-  destruct (first_open_stream (s_uid (sub_expire now s)) sts) as [st|]; [|exact H1].
-  destruct (s_backlog (sub_expire now s)) as [|m b] eqn:Eb; [exact H1|].
-  pose proof (drain_future (length (m :: b)) (st_max st) now _ I1 K1 H1) as H2.
-  pose proof (evolves_inv _ _ I1 (evolves_drain (length (m :: b)) (st_max st) now (sub_expire now s))) as I2.
-  destruct (drain (length (m :: b)) (st_max st) now (sub_expire now s)) as [s2 rs]. simpl in *.
-  intros a l Hl. destruct (sub_expire_spec now s2 I2) as (_ & _ & H3 & _). apply (H3 a l Hl).
+  apply serve_future; assumption.
+Qed.
+
+(* C06 at quiescence: after the waiting consumers have been served, a non-empty
+   backlog and a consumer waiting on that subscription do not coexist. *)
+Lemma first_waiter_none u ws : first_waiter u ws = None <-> ~ In u (map fst ws).
+Proof.
+  induction ws as [|[v k] ws IH]; simpl; [tauto|]. destruct (N.eqb u v) eqn:E.
+  - apply N.eqb_eq in E. subst. split; [discriminate|]. intros H. exfalso. auto.
+  - apply N.eqb_neq in E. destruct (first_waiter u ws) as [[k' r]|].
+    + split; [discriminate|]. intros H. exfalso.
+      assert (Hn : ~ In u (map fst ws)) by (intros Hin; apply H; right; assumption).
+      apply IH in Hn. discriminate.
+    + split; auto. intros _ [H|H]; [congruence|]. destruct IH as [IH _]. apply (IH eq_refl). assumption.
+Qed.
+
+Lemma first_waiter_length u ws k rest : first_waiter u ws = Some (k, rest) -> length ws = S (length rest).
+Proof.
+  revert k rest. induction ws as [|[v k0] ws IH]; intros k rest; simpl; [discriminate|].
+  destruct (N.eqb u v).
+  - intros H; injection H as <- <-. reflexivity.
+  - destruct (first_waiter u ws) as [[k' r]|] eqn:E; [|discriminate]. intros H; injection H as <- <-.
+    simpl. f_equal. eapply IH. reflexivity.
 Qed.
 
 (* ---------- C05: parsing the modifications ---------- *)
